@@ -19,12 +19,14 @@ package proxy
 //@ pred hole(m proxyIDMapping) = m.sourceShard.ClusterID == 0 && m.sourceShard.ShardID == 0
 
 //@ contract newProxyIDRingBuffer
+//@   props C05 C01
 //@   ensures result != nil && fresh(result) && result.wf() && result.size == 0
 //@   ensures len(result.entries) == max(capacity, 1)
 //@   requires capacity <= MaxAlloc
 //@   assigns nothing
 
 //@ contract (*proxyIDRingBuffer).ensureCapacity
+//@   props C05 C01
 //@   requires b.wf() && (b.size == len(b.entries) ==> 2 * len(b.entries) <= MaxAlloc)
 //@   ensures  @wf: b.wf() && b.size < len(b.entries)
 //@   ensures  @scalars: b.size == old(b.size) && b.startProxyID == old(b.startProxyID) && b.maxSize == old(b.maxSize)
@@ -38,6 +40,7 @@ package proxy
 //@   loop 1 decreases b.size - i
 
 //@ contract (*proxyIDRingBuffer).Append
+//@   props C05 C01
 //@   requires b.wf() && 1 <= proxyID && proxyID < MaxID
 //@   requires b.size > 0 ==> proxyID >= b.startProxyID + int64(b.size)
 //@   requires b.size > 0 ==> 4 * (proxyID - b.startProxyID + 2) <= MaxAlloc
@@ -58,6 +61,7 @@ package proxy
 //@   loop 1 decreases proxyID - expected
 
 //@ contract (*proxyIDRingBuffer).AggregateUpTo
+//@   props C05 C01
 //@   requires b.wf()
 //@   ensures  @count: result1 == ite(b.size == 0 || watermark < b.startProxyID, 0, min(watermark - b.startProxyID + 1, int64(b.size)))
 //@   ensures  @fresh: fresh(result0)
@@ -74,6 +78,7 @@ package proxy
 //@   loop 1 decreases count - i
 
 //@ contract (*proxyIDRingBuffer).Discard
+//@   props C05 C01
 //@   requires b.wf()
 //@   ensures  @wf: b.wf()
 //@   ensures  @size: b.size == old(b.size) - clamp(count, 0, old(b.size))
